@@ -529,6 +529,16 @@ func addTree(
 			c.FileInfo.Mode = tree.FileInfo.Mode
 		}
 
+		if present, occupied := occupant(all, c.Destination); occupied {
+			if c.Type == TypeImplicitDir && present.IsDir() {
+				// keep the directory that is already there
+				return nil
+			}
+			if !c.IsDir() || present.Type != TypeImplicitDir {
+				return contentCollisionError(c, present)
+			}
+		}
+
 		all[c.Destination] = c.WithFileInfoDefaults(umask, mtime)
 
 		return nil
